@@ -10,7 +10,7 @@ Fixpoint somes (l : list (option N)) : list N :=
   match l with [] => [] | Some x :: l' => x :: somes l' | None :: l' => somes l' end.
 
 Definition pending_ret (m : lockst) : list N :=
-  match m with ByConsRet (Some x) => [x] | _ => [] end.
+  match m with ByConsRet (Some x) | ByConsPop (Some x) => [x] | _ => [] end.
 
 Definition holds_cons (m : lockst) : bool :=
   match m with ByConsWait | ByConsRet _ => true | _ => false end.
@@ -23,13 +23,16 @@ Definition Inv (s : state) : Prop :=
      0 < tok s \/ cancelled s = true \/ exists i, mtx s = ByProd i false) /\
   pushed s = popped s ++ q s /\
   popped s = rev (somes (c_got s)) ++ pending_ret (mtx s) /\
-  (forall i b, mtx s = ByProd i b -> nth_error (prods s) i <> None).
+  (forall i b, mtx s = ByProd i b -> nth_error (prods s) i <> None) /\
+  (c_pc s = CPopHold <-> exists r, mtx s = ByConsPop r).
 
-Lemma Inv_init items want wc : Inv (init items want wc).
+Lemma Inv_init_pop pp items want wc : Inv (init_pop pp items want wc).
 Proof.
-  unfold Inv, init. cbn. repeat split; try discriminate; try tauto; intros; try discriminate.
+  unfold Inv, init_pop. cbn. repeat split; try discriminate; try tauto; intros; try discriminate.
   all: try (destruct H; discriminate).
 Qed.
+Lemma Inv_init items want wc : Inv (init items want wc).
+Proof. apply Inv_init_pop. Qed.
 
 Lemma set_prod_length i p l : length (set_prod i p l) = length l.
 Proof.
@@ -54,7 +57,12 @@ Ltac break_in :=
   end.
 
 Ltac simp_inv :=
-  unfold Inv, upd; cbn [mtx q tok cancelled c_pc c_want c_got prods canceller pushed popped holds_cons pending_ret].
+  unfold Inv, set_prepop, upd; cbn [mtx q tok cancelled c_pc c_prepop c_want c_got prods canceller pushed popped holds_cons pending_ret].
+
+(* the last conjunct when the consumer is not inside Pop, before and after *)
+Lemma no_pop_hold (pc : cpc) (m : lockst) :
+  pc <> CPopHold -> (forall r, m <> ByConsPop r) -> (pc = CPopHold <-> exists r, m = ByConsPop r).
+Proof. intros H1 H2. split; [intros E; contradiction | intros [r E]; destruct (H2 r E)]. Qed.
 
 Ltac ex_falso_pc :=
   match goal with
@@ -64,64 +72,109 @@ Ltac ex_falso_pc :=
 
 Lemma cstep_inv s s' : Inv s -> In s' (cstep s) -> Inv s'.
 Proof.
-  intros (I1 & I2 & I3 & I4 & I5 & I6 & I7) Hin. unfold cstep in Hin.
+  intros (I1 & I2 & I3 & I4 & I5 & I6 & I7 & I8) Hin. unfold cstep in Hin.
+  assert (Hh : c_pc s <> CHolding -> holds_cons (mtx s) = false).
+  { intros Hn. apply not_true_is_false. intros E. apply I1 in E. contradiction. }
+  assert (Hp : c_pc s <> CPopHold -> forall r, mtx s <> ByConsPop r).
+  { intros Hn r E. apply Hn. apply I8. exists r. exact E. }
   destruct (c_pc s) eqn:Epc.
   - (* CStart *)
     destruct Hin as [<-|[]]. simp_inv.
-    assert (Hh : holds_cons (mtx s) = false).
-    { apply not_true_is_false. intros E. apply I1 in E. discriminate. }
-    destruct (c_want s); (split; [split; [discriminate|rewrite Hh; discriminate]|]);
-      (split; [exact I2|]); (split; [discriminate|]); (split; [intros [?|?]; discriminate|]);
-      (split; [exact I5|]); (split; [exact I6|exact I7]).
+    specialize (Hh ltac:(discriminate)). specialize (Hp ltac:(discriminate)).
+    assert (Hpc : forall pc', pc' <> CHolding -> pc' <> CParked -> pc' <> CSelect -> pc' <> CPopHold ->
+              (pc' = CHolding <-> holds_cons (mtx s) = true) /\ (mtx s = ByConsWait -> q s = []) /\
+              (pc' = CParked -> tok s = 0 /\ cancelled s = false) /\
+              (pc' = CSelect \/ pc' = CParked -> q s <> [] -> 0 < tok s \/ cancelled s = true \/ exists i, mtx s = ByProd i false) /\
+              pushed s = popped s ++ q s /\ popped s = rev (somes (c_got s)) ++ pending_ret (mtx s) /\
+              (forall i b, mtx s = ByProd i b -> nth_error (prods s) i <> None) /\
+              (pc' = CPopHold <-> exists r, mtx s = ByConsPop r)).
+    { intros pc' N1 N2 N3 N4.
+      split; [split; [intros E; contradiction | rewrite Hh; discriminate]|].
+      split; [exact I2|]. split; [intros E; contradiction|]. split; [intros [E|E]; contradiction|].
+      split; [exact I5|]. split; [exact I6|]. split; [exact I7|]. apply no_pop_hold; assumption. }
+    destruct (c_prepop s); [unfold after_pops; destruct (c_want s)|]; apply Hpc; discriminate.
+  - (* CPopLock *)
+    specialize (Hh ltac:(discriminate)). specialize (Hp ltac:(discriminate)).
+    destruct (mtx s) eqn:Em; try (destruct Hin; fail).
+    cbn [pending_ret] in I6. rewrite app_nil_r in I6.
+    destruct (q s) as [|x q'] eqn:Eq; destruct Hin as [<-|[]]; simp_inv.
+    + split; [split; discriminate|]. split; [discriminate|]. split; [discriminate|]. split; [intros [?|?]; discriminate|].
+      split; [exact I5|]. split; [rewrite app_nil_r; exact I6|]. split; [discriminate|].
+      split; [intros _; eexists; reflexivity | reflexivity].
+    + split; [split; discriminate|]. split; [discriminate|]. split; [discriminate|]. split; [intros [?|?]; discriminate|].
+      split; [rewrite I5, <- app_assoc; reflexivity|]. split; [rewrite I6; reflexivity|]. split; [discriminate|].
+      split; [intros _; eexists; reflexivity | reflexivity].
+  - (* CPopHold *)
+    destruct (proj1 I8 eq_refl) as [r Em]. rewrite Em in Hin. cbv zeta in Hin. destruct Hin as [<-|[]]. simp_inv.
+    rewrite Em in I6.
+    assert (Hpc : forall pc', pc' <> CHolding -> pc' <> CParked -> pc' <> CSelect -> pc' <> CPopHold ->
+              (pc' = CHolding <-> false = true) /\ (Free = ByConsWait -> q s = []) /\
+              (pc' = CParked -> tok s = 0 /\ cancelled s = false) /\
+              (pc' = CSelect \/ pc' = CParked -> q s <> [] -> 0 < tok s \/ cancelled s = true \/ exists i, @eq lockst Free (ByProd i false)) /\
+              pushed s = popped s ++ q s /\
+              popped s = rev (somes match r with Some x => Some x :: c_got s | None => c_got s end) ++ [] /\
+              (forall i b, @eq lockst Free (ByProd i b) -> nth_error (prods s) i <> None) /\
+              (pc' = CPopHold <-> exists r0, @eq lockst Free (ByConsPop r0))).
+    { intros pc' N1 N2 N3 N4.
+      split; [split; [intros E; contradiction | discriminate]|].
+      split; [discriminate|]. split; [intros E; contradiction|]. split; [intros [E|E]; contradiction|].
+      split; [exact I5|].
+      split; [destruct r as [x|]; cbn [somes rev pending_ret] in *; rewrite ?app_nil_r in *; exact I6|].
+      split; [discriminate|]. apply no_pop_hold; [assumption | discriminate]. }
+    destruct (pred (c_prepop s)); [unfold after_pops; destruct (c_want s)|]; apply Hpc; discriminate.
   - (* CWantLock *)
-    assert (Hh : holds_cons (mtx s) = false).
-    { apply not_true_is_false. intros E. apply I1 in E. discriminate. }
+    specialize (Hh ltac:(discriminate)). specialize (Hp ltac:(discriminate)).
     destruct (mtx s) eqn:Em; try (destruct Hin; fail).
     cbn [pending_ret] in I6. rewrite app_nil_r in I6.
     destruct (cancelled s) eqn:Ec.
     + destruct Hin as [<-|[]]. simp_inv.
       split; [tauto|]. split; [discriminate|]. split; [discriminate|]. split; [intros [?|?]; discriminate|].
-      split; [exact I5|]. split; [rewrite app_nil_r; exact I6|discriminate].
+      split; [exact I5|]. split; [rewrite app_nil_r; exact I6|]. split; [discriminate|].
+      apply no_pop_hold; discriminate.
     + destruct (q s) as [|x q'] eqn:Eq.
       * destruct Hin as [<-|[]]. simp_inv.
         split; [tauto|]. split; [reflexivity|]. split; [discriminate|]. split; [intros [?|?]; discriminate|].
-        split; [exact I5|]. split; [rewrite app_nil_r; exact I6|discriminate].
+        split; [exact I5|]. split; [rewrite app_nil_r; exact I6|]. split; [discriminate|].
+        apply no_pop_hold; discriminate.
       * destruct Hin as [<-|[]]. simp_inv.
         split; [tauto|]. split; [discriminate|]. split; [discriminate|]. split; [intros [?|?]; discriminate|].
-        split; [rewrite I5, <- app_assoc; reflexivity|]. split; [rewrite I6; reflexivity|discriminate].
+        split; [rewrite I5, <- app_assoc; reflexivity|]. split; [rewrite I6; reflexivity|]. split; [discriminate|].
+        apply no_pop_hold; discriminate.
   - (* CHolding *)
-    assert (Hh : holds_cons (mtx s) = true) by (apply I1; reflexivity).
-    destruct (mtx s) eqn:Em; try discriminate Hh.
+    assert (Hhc : holds_cons (mtx s) = true) by (apply I1; reflexivity).
+    destruct (mtx s) eqn:Em; try discriminate Hhc.
     + (* ByConsWait: unlock, go to select *)
       destruct Hin as [<-|[]]. simp_inv. specialize (I2 eq_refl).
       split; [split; discriminate|]. split; [discriminate|]. split; [discriminate|].
-      split; [intros _ Hq; contradiction|]. split; [exact I5|]. split; [exact I6|discriminate].
+      split; [intros _ Hq; contradiction|]. split; [exact I5|]. split; [exact I6|]. split; [discriminate|].
+      apply no_pop_hold; discriminate.
     + (* ByConsRet r: unlock, return *)
       destruct Hin as [<-|[]]. simp_inv. cbn [pending_ret] in I6.
       split; [destruct r; destruct (pred (c_want s)); split; discriminate|].
       split; [discriminate|].
       split; [destruct r; destruct (pred (c_want s)); discriminate|].
       split; [destruct r; destruct (pred (c_want s)); intros [?|?]; discriminate|].
-      split; [exact I5|]. split; [|discriminate].
-      destruct r as [x|]; cbn [somes rev pending_ret] in *; rewrite ?app_nil_r in *; exact I6.
+      split; [exact I5|].
+      split; [destruct r as [x|]; cbn [somes rev pending_ret] in *; rewrite ?app_nil_r in *; exact I6|].
+      split; [discriminate|].
+      apply no_pop_hold; [destruct r; destruct (pred (c_want s)); discriminate | discriminate].
   - (* CSelect *)
-    assert (Hh : holds_cons (mtx s) = false).
-    { apply not_true_is_false. intros E. apply I1 in E. discriminate. }
+    specialize (Hh ltac:(discriminate)). specialize (Hp ltac:(discriminate)).
     cbv zeta in Hin.
     destruct (0 <? tok s) eqn:Et; [|destruct (cancelled s) eqn:Ec].
     + assert (G : forall t', Inv (upd s (mtx s) (q s) t' (cancelled s) CWantLock (c_want s) (c_got s) (prods s) (canceller s) (pushed s) (popped s))).
       { intros t'. simp_inv. split; [split; [discriminate|rewrite Hh; discriminate]|].
         split; [exact I2|]. split; [discriminate|]. split; [intros [?|?]; discriminate|].
-        split; [exact I5|]. split; [exact I6|exact I7]. }
+        split; [exact I5|]. split; [exact I6|]. split; [exact I7|]. apply no_pop_hold; [discriminate | exact Hp]. }
       destruct (cancelled s); [destruct Hin as [<-|[<-|[]]]|destruct Hin as [<-|[]]]; apply G.
     + destruct Hin as [<-|[]]. simp_inv. split; [split; [discriminate|rewrite Hh; discriminate]|].
       split; [exact I2|]. split; [discriminate|]. split; [intros [?|?]; discriminate|].
-      split; [exact I5|]. split; [exact I6|exact I7].
+      split; [exact I5|]. split; [exact I6|]. split; [exact I7|]. apply no_pop_hold; [discriminate | exact Hp].
     + (* parks: no token, not cancelled *)
       destruct Hin as [<-|[]]. simp_inv. split; [split; [discriminate|rewrite Hh; discriminate]|].
       split; [exact I2|]. split; [intros _; split; [lia|reflexivity]|].
       split; [intros _ Hq; apply I4; [left; reflexivity|exact Hq]|].
-      split; [exact I5|]. split; [exact I6|exact I7].
+      split; [exact I5|]. split; [exact I6|]. split; [exact I7|]. apply no_pop_hold; [discriminate | exact Hp].
   - destruct Hin.
   - destruct Hin.
 Qed.
@@ -134,14 +187,14 @@ Lemma start_prod_inv s i p :
   Inv (upd s (mtx s) (q s) (tok s) (cancelled s) (c_pc s) (c_want s) (c_got s)
            (set_prod i p (prods s)) (canceller s) (pushed s) (popped s)).
 Proof.
-  intros (I1 & I2 & I3 & I4 & I5 & I6 & I7). simp_inv.
+  intros (I1 & I2 & I3 & I4 & I5 & I6 & I7 & I8). simp_inv.
   split; [exact I1|]. split; [exact I2|]. split; [exact I3|]. split; [exact I4|].
-  split; [exact I5|]. split; [exact I6|]. intros j b H. apply set_prod_nth_some. apply (I7 j b H).
+  split; [exact I5|]. split; [exact I6|]. split; [|exact I8]. intros j b H. apply set_prod_nth_some. apply (I7 j b H).
 Qed.
 
 Lemma pstep_inv cap s i s' : 1 <= cap -> Inv s -> In s' (pstep cap s i) -> Inv s'.
 Proof.
-  intros Hcap HI Hin. pose proof HI as (I1 & I2 & I3 & I4 & I5 & I6 & I7). unfold pstep in Hin.
+  intros Hcap HI Hin. pose proof HI as (I1 & I2 & I3 & I4 & I5 & I6 & I7 & I8). unfold pstep in Hin.
   destruct (nth_error (prods s) i) as [p|] eqn:Ep; [|destruct Hin].
   destruct (mtx s) eqn:Em.
   - (* Free *)
@@ -151,26 +204,31 @@ Proof.
       split; [exact I1|]. split; [discriminate|]. split; [exact I3|].
       split; [intros _ _; right; right; exists i; reflexivity|].
       split; [rewrite I5, app_assoc; reflexivity|]. split; [exact I6|].
-      intros j b H. injection H as <- _. rewrite Ep. discriminate.
+      split; [intros j b H; injection H as <- _; rewrite Ep; discriminate|].
+      (split; [intros E8; apply I8 in E8; destruct E8 as [r8 E8]; discriminate | intros [r8 E8]; discriminate]).
     + destruct Hin as [<-|[]]. rewrite <- Em. apply start_prod_inv. exact HI.
+  - destruct (p_started p); [destruct Hin|]. destruct Hin as [<-|[]]. rewrite <- Em. apply start_prod_inv. exact HI.
   - destruct (p_started p); [destruct Hin|]. destruct Hin as [<-|[]]. rewrite <- Em. apply start_prod_inv. exact HI.
   - destruct (p_started p); [destruct Hin|]. destruct Hin as [<-|[]]. rewrite <- Em. apply start_prod_inv. exact HI.
   - (* ByProd i0 sent *)
     destruct (Nat.eqb i i0) eqn:Ei.
     + apply Nat.eqb_eq in Ei. subst i0. cbn [holds_cons pending_ret] in *.
       assert (Hnh : c_pc s <> CHolding) by (intros E; apply I1 in E; discriminate).
+      assert (Hnp : c_pc s <> CPopHold) by (intros E; apply I8 in E; destruct E as [r E]; discriminate).
       destruct sent.
       * (* unlock *)
         destruct Hin as [<-|[]]. simp_inv.
         split; [split; [intros E; contradiction|discriminate]|]. split; [discriminate|]. split; [exact I3|].
         split; [intros Hpc Hq; destruct (I4 Hpc Hq) as [?|[?|[j Hj]]]; [left; assumption|right; left; assumption|discriminate]|].
-        split; [exact I5|]. split; [exact I6|discriminate].
+        split; [exact I5|]. split; [exact I6|]. split; [discriminate|].
+        split; [intros E; contradiction | intros [r8 E8]; discriminate].
       * (* non-blocking send *)
         destruct (c_pc s) eqn:Epc; destruct Hin as [<-|[]]; simp_inv.
         all: split; [split; [discriminate || (intros E; congruence)|discriminate]|].
         all: split; [discriminate|].
         all: split; [try discriminate; try exact I3|].
-        all: split; [|split; [exact I5|split; [exact I6|intros j b H; injection H as <- _; rewrite Ep; discriminate]]].
+        all: split; [|split; [exact I5|split; [exact I6|split; [intros j b H; injection H as <- _; rewrite Ep; discriminate|
+                       split; [discriminate || (intros E; congruence) | intros [r8 E8]; discriminate]]]]].
         all: try (intros [?|?]; discriminate).
         (* CSelect: a token is now buffered *)
         intros _ _. left. destruct (tok s <? cap) eqn:Et; lia.
@@ -179,14 +237,16 @@ Qed.
 
 Lemma kstep_inv s s' : Inv s -> In s' (kstep s) -> Inv s'.
 Proof.
-  intros (I1 & I2 & I3 & I4 & I5 & I6 & I7) Hin. unfold kstep in Hin.
+  intros (I1 & I2 & I3 & I4 & I5 & I6 & I7 & I8) Hin. unfold kstep in Hin.
   destruct (canceller s) as [[|]|]; try (destruct Hin; fail). destruct Hin as [<-|[]]. simp_inv.
   split.
   { destruct (c_pc s) eqn:Epc; try exact I1. split; [discriminate|]. intros E. apply I1 in E. discriminate. }
   split; [exact I2|].
   split; [destruct (c_pc s); discriminate|].
   split; [intros _ _; right; left; reflexivity|].
-  split; [exact I5|]. split; [exact I6|exact I7].
+  split; [exact I5|]. split; [exact I6|]. split; [exact I7|].
+  destruct (c_pc s) eqn:Epc; try exact I8.
+  split; [discriminate|]. intros E. apply I8 in E. discriminate.
 Qed.
 
 Lemma step_inv cap s tid s' : 1 <= cap -> Inv s -> In s' (step cap s tid) -> Inv s'.
@@ -201,21 +261,24 @@ Inductive reachable (cap : N) (s0 : state) : state -> Prop :=
 | reach_init : reachable cap s0 s0
 | reach_step s tid s' : reachable cap s0 s -> In s' (step cap s tid) -> reachable cap s0 s'.
 
+Theorem reachable_inv_pop cap pp items want wc s :
+  1 <= cap -> reachable cap (init_pop pp items want wc) s -> Inv s.
+Proof.
+  intros Hcap H. induction H as [|s tid s' _ IH Hin]; [apply Inv_init_pop|eapply step_inv; eassumption].
+Qed.
 Theorem reachable_inv cap items want wc s :
   1 <= cap -> reachable cap (init items want wc) s -> Inv s.
-Proof.
-  intros Hcap H. induction H as [|s tid s' _ IH Hin]; [apply Inv_init|eapply step_inv; eassumption].
-Qed.
+Proof. apply reachable_inv_pop. Qed.
 
 (* no_lost_wakeup: whenever the consumer is parked and the queue is non-empty, a producer is
    inside its critical section just before its wake-up send; that send is enabled and
    un-parks the consumer *)
-Theorem no_lost_wakeup cap items want wc s :
-  1 <= cap -> reachable cap (init items want wc) s ->
+Theorem no_lost_wakeup_pop cap pp items want wc s :
+  1 <= cap -> reachable cap (init_pop pp items want wc) s ->
   c_pc s = CParked -> q s <> [] ->
   exists i s', mtx s = ByProd i false /\ pstep cap s i = [s'] /\ c_pc s' = CWantLock.
 Proof.
-  intros Hcap Hr Hp Hq. pose proof (reachable_inv cap items want wc s Hcap Hr) as (I1 & I2 & I3 & I4 & I5 & I6 & I7).
+  intros Hcap Hr Hp Hq. pose proof (reachable_inv_pop cap pp items want wc s Hcap Hr) as (I1 & I2 & I3 & I4 & I5 & I6 & I7 & I8).
   destruct (I3 Hp) as (Ht & Hc).
   destruct (I4 (or_intror Hp) Hq) as [H|[H|[i Hi]]]; [lia|congruence|].
   exists i. unfold pstep. specialize (I7 i false Hi).
@@ -225,21 +288,51 @@ Qed.
 
 (* a parked consumer with a non-empty queue is therefore never a terminal situation; in
    particular, once every producer has left its critical section it cannot exist at all *)
-Corollary never_stuck cap items want wc s :
+Theorem no_lost_wakeup cap items want wc s :
   1 <= cap -> reachable cap (init items want wc) s ->
+  c_pc s = CParked -> q s <> [] ->
+  exists i s', mtx s = ByProd i false /\ pstep cap s i = [s'] /\ c_pc s' = CWantLock.
+Proof. apply no_lost_wakeup_pop. Qed.
+
+Corollary never_stuck_pop cap pp items want wc s :
+  1 <= cap -> reachable cap (init_pop pp items want wc) s ->
   (forall i b, mtx s <> ByProd i b) -> c_pc s = CParked -> q s = [].
 Proof.
   intros Hcap Hr Hfree Hp. destruct (q s) eqn:Eq; [reflexivity|exfalso].
-  destruct (no_lost_wakeup cap items want wc s Hcap Hr Hp) as (i & s' & Hm & _); [congruence|].
+  destruct (no_lost_wakeup_pop cap pp items want wc s Hcap Hr Hp) as (i & s' & Hm & _); [congruence|].
   apply (Hfree i false Hm).
 Qed.
+Corollary never_stuck cap items want wc s :
+  1 <= cap -> reachable cap (init items want wc) s ->
+  (forall i b, mtx s <> ByProd i b) -> c_pc s = CParked -> q s = [].
+Proof. apply never_stuck_pop. Qed.
 
 (* FIFO and exactly once: what was popped, followed by what is still queued, is exactly what
    was pushed, in push order; the consumer's results are the popped items in order *)
+Theorem fifo_exactly_once_pop cap pp items want wc s :
+  1 <= cap -> reachable cap (init_pop pp items want wc) s ->
+  pushed s = popped s ++ q s /\ popped s = rev (somes (c_got s)) ++ pending_ret (mtx s).
+Proof. intros Hcap Hr. pose proof (reachable_inv_pop cap pp items want wc s Hcap Hr) as (_ & _ & _ & _ & I5 & I6 & _ & _). auto. Qed.
 Theorem fifo_exactly_once cap items want wc s :
   1 <= cap -> reachable cap (init items want wc) s ->
   pushed s = popped s ++ q s /\ popped s = rev (somes (c_got s)) ++ pending_ret (mtx s).
-Proof. intros Hcap Hr. pose proof (reachable_inv cap items want wc s Hcap Hr) as (_ & _ & _ & _ & I5 & I6 & _). auto. Qed.
+Proof. apply fifo_exactly_once_pop. Qed.
+
+(* the seeded shape of round nine: Add signals only when the queue goes from empty to one item, by a
+   length that a draining Pop does not bring back to zero; in the model: a producer that does not
+   signal.  Consumer: Pop once, then wait; producer: two items.  Pop takes the first, the consumer
+   parks, the second Add does not signal *)
+Definition pstep_nosignal (s : state) (i : nat) : list state :=
+  match mtx s with
+  | ByProd j false => if Nat.eqb i j then [upd s (ByProd i true) (q s) (tok s) (cancelled s) (c_pc s) (c_want s) (c_got s) (prods s) (canceller s) (pushed s) (popped s)] else pstep 1 s i
+  | _ => pstep 1 s i
+  end.
+Lemma pop_then_wait_needs_the_signal :
+  exists s,
+    fold_left (fun ss t => flat_map (fun s => if (t =? 0)%N then cstep s else if (t =? 7)%N then pstep_nosignal s 0 else pstep 1 s 0) ss)
+              [1; 1; 1; 1; 0; 0; 0; 0; 0; 0; 0; 0; 0; 1; 7; 1]%N [init_pop 1 [[1; 2]] 1 false] = [s] /\
+    c_pc s = CParked /\ q s = [2] /\ mtx s = Free /\ cancelled s = false.
+Proof. eexists. vm_compute. repeat split. Qed.
 
 (* a cancelled wait returns "no item": the only way the consumer records None is through the
    cancelled branch *)
